@@ -50,6 +50,12 @@ def census(notes=None):
         m = re.search(r"#\[cfg\(test\)\]\s*mod\s+\w+\s*\{", src)
         if m:
             src = src[:m.start()]
+        # verification hooks (cfg(sozu_verif) modules, add-only, no production caller) are not part of the census
+        while True:
+            hm = re.search(r"#\[cfg\(sozu_verif\)\]\s*pub(?:\([^)]*\))?\s+mod\s+\w+\s*\{", src)
+            if not hm:
+                break
+            src = src[:hm.start()] + src[R.match_brace(src, hm.end() - 1) + 1:]
         fns = [(m.start(), m.group(1)) for m in re.finditer(r"\bfn\s+(\w+)\s*[<(]", src)]
         order, direct, bodies = [], {}, {}
         for idx, (pos, name) in enumerate(fns):
@@ -371,6 +377,18 @@ def h2toh1t_op(rng):
     return ["h2toh1t", chunked, nf] + fields + frames
 
 
+def h2convt_op(rng):
+    """a chunked HTTP/1.1 response with 0..3 trailer fields through kawa's parser and the real H2 converter"""
+    mx = rng.choice(H2_MAX)
+    nf = rng.choice([0, 1, 1, 2, 3])
+    cs = [rng.choice([s_ for s_ in H2_SIZES if s_ > 0]) for _ in range(rng.randint(1, 3))]
+    if mx <= 100:   # many tiny frames: keep the body small
+        cs = [min(s_, 700 if mx == 100 else 40) for s_ in cs]
+    total = sum(cs)
+    ws = [rng.choice(H2_WINDOWS + [total, total - 1, total + 1, max(total - cs[-1], 0)]) for _ in range(rng.randint(1, 5))]
+    return ["h2convt", mx, rng.randrange(1, 10 ** 6), nf, "W"] + ws + ["C"] + cs
+
+
 def gen_cases(rng, tier):
     n = {"quick": 60, "thorough": 600, "search": 150}.get(tier, 60)
     out = []
@@ -382,6 +400,8 @@ def gen_cases(rng, tier):
         out.append(Case("r%d" % i, [["new"]] + [h1rt_op(rng, big=(i % 15 == 0)) for _ in range(rng.randint(1, 3))], {}))
     for i in range({"quick": 400, "thorough": 6000, "search": 1000}.get(tier, 400)):
         out.append(Case("h%d" % i, [["new"]] + [h2conv_op(rng) for _ in range(rng.randint(1, 3))], {}))
+    for i in range({"quick": 120, "thorough": 2000, "search": 400}.get(tier, 120)):
+        out.append(Case("ht%d" % i, [["new"]] + [h2convt_op(rng) for _ in range(rng.randint(1, 3))], {}))
     # the real FrontRustls over loopback with a rustls client that keeps reading; limits and
     # sizes are multiples of 256 (the model scales by 256), totals on both sides of the limit
     for i in range({"quick": 12, "thorough": 120, "search": 30}.get(tier, 12)):
@@ -429,6 +449,9 @@ def corpus_cases():
 
 def nontrivial(case, o):
     names = [op[0] for op in case.ops]
+    if "h2convt" in names:
+        # the trailers went out after a body that needed more than one round
+        return any(op[0] == "h2convt" and op[3] >= 1 and ob and "T" in ob and ob.count("R") >= 2 for op, ob in zip(case.ops, o["obs"]))
     if "h2toh1t" in names:
         return any(op[0] == "h2toh1t" and op[1] == 1 and op[2] >= 1 and len(op) > 3 + 2 * op[2] for op in case.ops)
     if "h2toh1" in names:
